@@ -168,7 +168,20 @@ theorem elemOk_of_norm_eq (n : Nat) {a b : Val} (h : norm a = norm b) (hb : elem
     | none => simp [elemOk] at hb
     | str s => simp [elemOk] at hb
     | dnil => simp [elemOk] at hb
-    | dcons _ _ _ => simp [elemOk] at hb
+    | dcons k2 x2 items2 =>
+      simp only [elemOk, Bool.and_eq_true] at hb
+      cases v with
+      | dcons k1 x1 items1 =>
+        simp only [norm, Val.dcons.injEq] at hv
+        have hsz := size_of_norm_eq hv.2.2
+        simp only [elemOk, Bool.and_eq_true]
+        refine ⟨⟨?_, ?_⟩, ihr hr hb.2⟩
+        · rw [hv.1]; exact hb.1.1
+        · rw [hsz]; exact hb.1.2
+      | none => simp [norm] at hv
+      | str s => simp [norm] at hv
+      | tens _ _ _ => simp [norm] at hv
+      | dnil => simp [norm] at hv
 
 theorem isSome_get?_of_norm_eq {a b : Val} (h : norm a = norm b) (k : String) :
     (a.get? k).isSome = (b.get? k).isSome := by
@@ -203,7 +216,17 @@ theorem dictToList_ok (n : Nat) (d : Val) (h : elemOk n d = true) :
     | none => simp [elemOk] at h
     | str s => simp [elemOk] at h
     | dnil => simp [elemOk] at h
-    | dcons _ _ _ => simp [elemOk] at h
+    | dcons k2 x2 items =>
+      simp only [elemOk, Bool.and_eq_true] at h
+      obtain ⟨⟨hk, hsz⟩, hr⟩ := h
+      have hk' : k2 = listKey := by simpa using hk
+      have hsz' : items.size = n := by simpa using hsz
+      obtain ⟨r', e1, e2, e3⟩ := ihr hr
+      refine ⟨.dcons k (.dcons k2 x2 items) r', ?_, ?_, ?_⟩
+      · simp only [dictToList] at e1
+        simp [dictToList, Val.mapValsM, toListVal, hk', e1, bind, Except.bind, pure, Except.pure]
+      · simp [norm, e2]
+      · simp [checkLens, lenOk, Val.isList, hk', Val.size, hsz', e3]
 
 theorem withIndex_of_has (n : Nat) (d : Val) (h : (d.get? "index").isSome = true) :
     withIndex n d = d := by
@@ -283,7 +306,9 @@ theorem lenOk_of_norm_eq (n : Nat) {a b : Val} (h : norm a = norm b) : lenOk n a
     cases b with
     | dcons k' v' r' =>
       have := size_of_norm_eq h
-      simp [lenOk, this]
+      have hk : k = k' := by simp [norm] at h; exact h.1
+      subst hk
+      simp [lenOk, Val.isList, this]
     | none => simp [norm] at h
     | str s => simp [norm] at h
     | tens _ _ _ => simp [norm] at h
